@@ -80,7 +80,7 @@ mod h {
         };
     }
     rename_names!(rename_2, 2, ["zz", "pz", "b1", "b2"]);
-    rename_names!(rename_3, 3, ["bth", "cfa"]);
+    rename_names!(rename_3, 3, ["bth", "cfa", "dbl"]);
     rename_names!(rename_4, 4, ["args"]);
     rename_names!(rename_5, 5, ["other"]);
 
@@ -168,6 +168,33 @@ mod h {
         assert!(matches!(&without, Ok(ExecMsg::Cfa { c, p }) if *c == 0 && *p == v[1]), "the default makes the field optional on the wire");
         kani::cover!(true);
         core::mem::forget((with, without));
+    }
+
+    /// Two separate attributes with the same path on one argument (`#[serde(default)]` then
+    /// `#[serde(rename = "w")]`) both land on the field: it is keyed `w`, optional, and the
+    /// parameter's own name is not a key of the message.
+    #[kani::proof]
+    #[kani::unwind(8)]
+    fn field_two_attributes_same_path() {
+        let v: [u64; 2] = kani::any();
+        let with: Result<ExecMsg, E> = decode(Msg { name: "dbl", body: Obj { keys: ["w", "p"], vals: [num(v[0]), num(v[1])] } });
+        let without: Result<ExecMsg, E> = decode(Msg { name: "dbl", body: Obj { keys: ["p"], vals: [num(v[1])] } });
+        let unrenamed: Result<ExecMsg, E> = decode(Msg { name: "dbl", body: Obj { keys: ["t", "p"], vals: [num(v[0]), num(v[1])] } });
+        assert!(matches!(&with, Ok(ExecMsg::Dbl { t, p }) if *t == v[0] && *p == v[1]), "the rename reaches the field");
+        assert!(matches!(&without, Ok(ExecMsg::Dbl { t, p }) if *t == 0 && *p == v[1]), "the default reaches the field");
+        assert!(!matches!(&unrenamed, Ok(ExecMsg::Dbl { t, .. }) if *t == v[0] && v[0] != 0), "the parameter name is not a wire key");
+        if let Ok(m) = &with {
+            match record(m) {
+                Ok(rec) => {
+                    assert!(rec.n == 6 && str_eq(rec.ev[0].s, "dbl"));
+                    assert!(rec.ev[1].k == K_FIELD && str_eq(rec.ev[1].s, "w"), "serialised under the renamed key");
+                    assert!(rec.ev[3].k == K_FIELD && str_eq(rec.ev[3].s, "p"));
+                }
+                Err(_) => assert!(false),
+            }
+        }
+        kani::cover!(true);
+        core::mem::forget((with, without, unrenamed));
     }
 
     // @PLAYBACK h@
